@@ -5,6 +5,7 @@ package main
 // all-concrete formatting, and redirects into the harness runtime.
 
 import (
+	"reflect"
 	"fmt"
 	"go/token"
 	"go/types"
@@ -248,6 +249,17 @@ func (e *Engine) setupIntrinsics() {
 		res := e.ackermannT(st, "math.Log", x)
 		return FloatV{FP: res}
 	}
+	n[p+"vpFieldTag"] = func(e *Engine, st *State, fn *ssa.Function, a []Value) Value {
+		iv, ok := a[0].(IfaceV)
+		if !ok || iv.T == nil {
+			panic(unsupported("vpFieldTag of a nil interface"))
+		}
+		stt, ok := under(iv.T).(*types.Struct)
+		if !ok {
+			panic(unsupported("vpFieldTag of a non-struct"))
+		}
+		return concStr(reflect.StructTag(stt.Tag(argInt(a[1]))).Get(argStr(a[2])))
+	}
 	n[p+"vpFloat64"] = func(e *Engine, st *State, fn *ssa.Function, a []Value) Value {
 		name := argStr(a[0])
 		t := Var(name, BV(64))
@@ -403,6 +415,38 @@ func (e *Engine) setupIntrinsics() {
 	}
 	// fmt
 	n["fmt.Errorf"] = func(e *Engine, st *State, fn *ssa.Function, a []Value) Value {
+		// the text is opaque; a %w operand keeps its place in the error chain
+		// (errors.Is / errors.Unwrap see it)
+		if f, ok := a[0].(StrV).Concrete(); ok && strings.Contains(f, "%w") {
+			idx, arg := 0, -1
+			for i := 0; i < len(f); i++ {
+				if f[i] != '%' {
+					continue
+				}
+				i++
+				for i < len(f) && strings.IndexByte("#0+- 123456789.", f[i]) >= 0 {
+					i++
+				}
+				if i >= len(f) {
+					break
+				}
+				if f[i] == '%' {
+					continue
+				}
+				if f[i] == 'w' && arg < 0 {
+					arg = idx
+				}
+				idx++
+			}
+			if tf := e.pkg.Func("vpWrapErr"); tf != nil && arg >= 0 {
+				if els := e.elems(st, a[1]); arg < len(els) {
+					if iv, ok := els[arg].(IfaceV); ok && iv.T != nil {
+						e.intrUsed["fmt.Errorf with %w -> vpWrapErr (opaque text, error chain kept)"] = true
+						return tailCall{Fn: FuncV{Fn: tf}, Args: []Value{iv}}
+					}
+				}
+			}
+		}
 		return e.opaqueError(st, "fmt.Errorf")
 	}
 	n["fmt.Sprintf"] = func(e *Engine, st *State, fn *ssa.Function, a []Value) Value {
@@ -491,6 +535,11 @@ func (e *Engine) setupIntrinsics() {
 		"(*sync.RWMutex).RLock":            "vpRWRLock",
 		"(*sync.RWMutex).RUnlock":          "vpRWRUnlock",
 		"(*sync.Once).Do":                  "vpOnceDo",
+		"errors.Is":                        "vpErrorsIs",
+		"(*sync.Map).Load":                 "vpSyncMapLoad",
+		"(*sync.Map).Store":                "vpSyncMapStore",
+		"(*sync.Map).LoadOrStore":          "vpSyncMapLoadOrStore",
+		"(*sync.Map).Delete":               "vpSyncMapDelete",
 		"(*sync.Pool).Get":                 "vpPoolGet",
 		"(*sync.Pool).Put":                 "vpPoolPut",
 		"encoding/json.Marshal":            "vpJSONMarshal",
